@@ -346,12 +346,24 @@ static z3::check_result check_path(z3::model* mout) {
 
 static std::string jesc(const std::string& s) { std::string o; for (char c : s) { if (c == '"' || c == '\\') { o.push_back('\\'); o.push_back(c); } else if (c == '\n') o += "\\n"; else if ((unsigned char)c < 32) o += ' '; else o.push_back(c); } return o; }
 
+static z3::expr* last_cmp = nullptr;     // REAL mode: a - b of the most recent symbolic comparison on this path (the one a failing assertion usually hinges on)
 static std::string model_json(bool& have) {
   have = false;
   z3::model m(*ctx);
   z3::check_result r = check_path(&m);
   if (r != z3::sat) return std::string("{}");
   have = true;
+  // prefer a counterexample that violates the last comparison by a clear margin, so that it survives the rounding of the native replay
+  if (mode == REAL && last_cmp && !getenv("SYM_NO_MARGIN")) {
+    for (const char* mg : {"1/100", "1/1000000"}) {
+      z3::expr c = (*last_cmp >= ctx->real_val(mg)) || (*last_cmp <= -ctx->real_val(mg));
+      bool was_nl = pc_nonlinear; slv->push(); nls->push(); slv->add(c); nls->add(c); if (is_nonlinear(c)) pc_nonlinear = true;
+      z3::model m2(*ctx); z3::check_result r2 = check_path(&m2);
+      slv->pop(); nls->pop(); pc_nonlinear = was_nl;
+      if (getenv("SYM_DEBUG_MARGIN")) fprintf(stderr, "margin %s -> %d  cmp=%s\n", mg, (int)r2, last_cmp->to_string().substr(0, 200).c_str());
+      if (r2 == z3::sat) { m = m2; break; }
+    }
+  }
   // REAL mode: prefer input values that are exactly representable doubles (multiples of 2^-k) when the rounded assignment
   // still satisfies the whole path condition (checked by substitution, no solver involved) so that the native replay follows the same path
   std::map<std::string, std::string> rounded;
@@ -677,6 +689,7 @@ int __sym_fcmp(int pred, double a, double b) {
     }
     z3::expr p = diffp(T(a), T(b));
     z3::expr zero = ctx->real_val(0);
+    if (!is_zero(p)) { z3::expr dd = E(tadd(T(a), T(b), true)); if (!last_cmp) last_cmp = new z3::expr(dd); else *last_cmp = dd; }   // the true difference a - b (p is only sign-equivalent)
     if (!is_zero(p)) { Term d = tadd(T(a), T(b), true); std::vector<std::pair<int, int>> items;
       if (log_linear(d, items)) { use_axiom("log-linear comparison: sum_k c_k log a_k < 0 <=> prod_k a_k^c_k < 1"); p = diffp(log_product(items), tconst(1)); } }
     { int ks = is_zero(p) ? 0 : known_sign(p);
